@@ -31,10 +31,17 @@ structure Facts where
   deleteRemovesPart  : Bool
   presenceNeedsFinal : Bool
   promoteAfterVerdict : Bool
+  /-- `tryResumeFromPartial` also resumes from a local file of exactly the manifest size
+  (boundary `partial > SizeBytes` instead of `partial >= SizeBytes`) -/
+  resumeFullPart : Bool
 deriving DecidableEq, Repr
 
+/-- the two step-order obligations every safety/liveness theorem relies on: promotion only after
+the verified-EOF signal, and a local file of length ≥ size is never used as a resume point -/
+def Facts.orderOK (f : Facts) : Bool := f.promoteAfterVerdict && !f.resumeFullPart
+
 /-- the tree as of round 1 (before any repair) -/
-def Facts.current : Facts := ⟨true, false, false, true⟩
+def Facts.current : Facts := ⟨true, false, false, true, false⟩
 
 /-- replica-side files of one manifest path -/
 structure Rep where
@@ -89,9 +96,17 @@ deriving Repr
 section
 variable {D : Type} [DecidableEq D] (H : Bytes → D)
 
+/-- outcomes in which the serving side gets as far as its offset validation
+(`handleFetchFile` step 5: `byteOffset >= entry.SizeBytes` ⇒ ack `bad_offset`) -/
+def reachesOffsetCheck : Outcome → Bool
+  | .dialFail | .errAck | .notOnPeer | .badOffset => false
+  | _ => true
+
 /-- `FetchClient.Fetch` against a peer behaving as `o`, resuming after the local prefix `pre`.
-`dstBroken`: the write side failed before the first byte (AppendReader could not open `.part`). -/
+`dstBroken`: the write side failed before the first byte (AppendReader could not open `.part`).
+A resume request at or beyond the end of the file is rejected by the peer with `bad_offset`. -/
 def fetch (content pre : Bytes) (dstBroken : Bool) (o : Outcome) : FetchRes :=
+  if reachesOffsetCheck o = true ∧ 0 < pre.length ∧ content.length ≤ pre.length then ⟨[], .badOffset⟩ else
   match bodyOf content o with
   | none => ⟨[], preErr o⟩
   | some full =>
@@ -122,7 +137,7 @@ def delete (f : Facts) (r : Rep) : Rep :=
 def resumePrefix (f : Facts) (size : Nat) (r : Rep) : Bytes :=
   match statFile f r with
   | none => []
-  | some n => if n = 0 ∨ size ≤ n then [] else (readAt r).getD []
+  | some n => if n = 0 ∨ (if f.resumeFullPart then size < n else size ≤ n) then [] else (readAt r).getD []
 
 /-- the write goroutine (`writeFileTail`): `WriteReader` (offset 0: create/truncate `.part`, stream,
 rename on clean EOF) or `AppendReader` (offset > 0: append to the existing `.part`, rename when the
